@@ -36,7 +36,8 @@ def seeded():
         ck = m.get("check", {})
         keys = ", ".join("`%s`" % x for x in ck.get("violation_keys", [])[:2])
         reb = " (rebased, see meta.json)" if os.path.exists(os.path.join(os.path.dirname(d), "patch.rebased.diff")) else ""
-        out.append("| %s%s | %s | %s | %s |" % (name, reb, esc(br)[:150], ("`bin/vcheck %s --tier quick`" % name.split("-")[0]) if ck.get("detected") else "**not caught**", esc(keys)))
+        how = ("`bin/vcheck %s --tier quick`" % name.split("-")[0]) if ck.get("detected") else ("no longer breaks the property: neutralised by fix %s (see meta.json)" % m["neutralised_by_fix"]) if m.get("neutralised_by_fix") else "**not caught**"
+        out.append("| %s%s | %s | %s | %s |" % (name, reb, esc(br)[:150], how, esc(keys)))
     return "\n".join(out)
 
 def checks():
